@@ -54,7 +54,7 @@ func (ig *ingest) moreGates(e *Effect) {
 	case e.Config == "vc-proof-and-block" && e.Kind == "call" && e.Name == "interfaces.StoreViewChange" && len(e.Args) == 2 && isNetMsg(e.Args[1]):
 		ev := a.NewEval(e, ig.r)
 		H := hdr(ev.Arg(1))
-		ev.Require("VC9", props("C08", "C04"), "a vote's non-empty prepared proof belongs to the vote's own instance", "net", Eq(inst(Call("protocol.PreprepareBlockRef", proofOf(H))), inst(H)))
+		ev.Require("VC9", props("C08", "C04", "C11"), "a vote's non-empty prepared proof belongs to the vote's own instance", "net", Eq(inst(Call("protocol.PreprepareBlockRef", proofOf(H))), inst(H)))
 	}
 	// L7.NV: NEW_VIEW acceptance does not depend on the node's own prepared state
 	if e.Config == "" && e.Kind == "store" && e.Name == "termincommittee.TermInCommittee.latestViewThatProcessedVCMOrNVM" {
@@ -82,7 +82,7 @@ func (ig *ingest) proofInstanceInNV(ev *Eval, votes *Term) {
 	proof := Call("protocol.PreparedProof", vh)
 	goal := Eq(inst(Call("protocol.PreprepareBlockRef", proof)), inst(vh))
 	if ev.Has(ForAll(votes, goal)) != nil {
-		ev.Verdict("NV9.inst", props("C07", "C04", "C08"), "every embedded vote that carries a non-empty prepared proof has that proof bound to the vote's own instance", "net", true, "")
+		ev.Verdict("NV9.inst", props("C07", "C04", "C08", "C11"), "every embedded vote that carries a non-empty prepared proof has that proof bound to the vote's own instance", "net", true, "")
 		return
 	}
 	facts := Facts{}
@@ -120,7 +120,7 @@ func (ig *ingest) proofInstanceInNV(ev *Eval, votes *Term) {
 			}
 		}
 	}
-	ev.Verdict("NV9.inst", props("C07", "C04", "C08"), "every embedded vote that carries a non-empty prepared proof has that proof bound to the vote's own instance", "net", facts.Has(goal) != nil,
+	ev.Verdict("NV9.inst", props("C07", "C04", "C08", "C11"), "every embedded vote that carries a non-empty prepared proof has that proof bound to the vote's own instance", "net", facts.Has(goal) != nil,
 		"no per-vote fact yields PreprepareBlockRef.InstanceId == vote.InstanceId for a non-empty proof")
 }
 
@@ -585,8 +585,8 @@ func runMore(a *Analyzer, r *Results) {
 	r.Check("F4.order", props("C17"), "cached messages are delivered in the order they were received (the filter never sorts or reorders a backlog)", "rawmessagesfilter", "-", true, "", "C")
 
 	// ---- I1.total / I3.same
-	if len(k.leaderFns) == 1 {
-		lf := k.leaderFns[0]
+	if k.leaderFn != nil {
+		lf := k.leaderFn
 		rets, und := a.Returns(funcID(lf), nil)
 		r.Undecided = append(r.Undecided, und...)
 		var v, cm *Term
